@@ -1137,20 +1137,39 @@ class ModelBuilder:
 
                 target_task = self._resolve_task_reference(project, source_task, prec_ref)
                 if target_task:
-                    # Add source_task as a dependency of target_task
+                    # Add source_task as a dependency of target_task, with the options written
+                    # on the precedes statement (gapduration, onstart, ...)
+                    options: dict[str, Any] = {}
+                    if isinstance(prec_item, dict):
+                        options = {
+                            "gapduration": prec_item.get("gapduration"),
+                            "gaplength": prec_item.get("gaplength"),
+                            "maxgapduration": prec_item.get("maxgapduration"),
+                            "onstart": prec_item.get("onstart", False),
+                            "onend": prec_item.get("onend", False),
+                        }
+                    new_dep: Any = {"task": source_task, **options} if any(options.values()) else source_task
+
+                    def dependency_key(dep: Any) -> tuple[Any, ...]:
+                        if not isinstance(dep, dict):
+                            return (id(dep), None, None, None, False, False)
+                        return (
+                            id(dep.get("task")),
+                            dep.get("gapduration") or None,
+                            dep.get("gaplength") or None,
+                            dep.get("maxgapduration") or None,
+                            bool(dep.get("onstart")),
+                            bool(dep.get("onend")),
+                        )
+
                     for scIdx in range(project.scenarioCount()):
                         existing_deps = target_task.get("depends", scIdx) or []
                         if not isinstance(existing_deps, list):
                             existing_deps = [existing_deps] if existing_deps else []
-                        # Check if source_task is already in dependencies
-                        already_exists = False
-                        for dep in existing_deps:
-                            dep_task = dep.get("task") if isinstance(dep, dict) else dep
-                            if dep_task is source_task:
-                                already_exists = True
-                                break
-                        if not already_exists:
-                            existing_deps.append(source_task)
+                        # Only the very same dependency makes this one redundant: an on-start
+                        # dependency on the same task, say, does not
+                        if dependency_key(new_dep) not in [dependency_key(dep) for dep in existing_deps]:
+                            existing_deps.append(new_dep)
                             target_task[("depends", scIdx)] = existing_deps
 
     def _resolve_task_reference(self, project: Project, from_task: Task, ref: str) -> Optional[Task]:
